@@ -5,17 +5,21 @@ PROPERTY = 'C18'
 def h(length):
     return dict(src='c18_env.cc', defines=['LEN=%d' % length, 'OTEL_INTERNAL_LOG_LEVEL=0'],
                 models=['libc.c', 'cxxrt.c', 'stdstring.c', 'env_getenv.c', 'libc_strto.c'], native_models=['env_getenv.c'])
-HARNESSES = {'c18_8': h(8), 'c18_22': h(22), 'c18_4': h(4)}
+HARNESSES = {}
 def qs(tag, L, tier):
     U = L + 3
+    sh = 'every NUL-free string of length exactly %d' % L
     return [
-      dict(name='timeout_from_string_len%d' % L, harness=tag, entry='h_timeout_from_string', unwind=U, tier=tier, timeout=900, shape='every NUL-terminated string of length <= %d' % L),
-      dict(name='duration_env_len%d' % L, harness=tag, entry='h_duration_env', unwind=U, tier=tier, timeout=900, shape='unset or every string of length <= %d; errno pre-state symbolic' % L),
-      dict(name='uint_env_len%d' % L, harness=tag, entry='h_uint_env', unwind=U, tier=tier, timeout=900, shape='unset or every string of length <= %d; errno pre-state symbolic' % L),
-      dict(name='bool_env_len%d' % L, harness=tag, entry='h_bool_env', unwind=U, tier=tier, timeout=900, shape='unset or every string of length <= %d' % L),
-      dict(name='float_env_len%d' % L, harness=tag, entry='h_float_env', unwind=U, tier=tier, timeout=900, shape='unset or every string of length <= %d; strtof nondeterministic' % L),
+      dict(name='timeout_from_string_len%d' % L, harness=tag, entry='h_timeout_from_string', unwind=U, tier=tier, timeout=900, solvers=['cadical', 'minisat'], shape=sh),
+      dict(name='duration_env_len%d' % L, harness=tag, entry='h_duration_env', unwind=U, tier=tier, timeout=900, solvers=['cadical', 'minisat'], shape='unset or ' + sh + '; errno pre-state symbolic'),
+      dict(name='uint_env_len%d' % L, harness=tag, entry='h_uint_env', unwind=U, tier=tier, timeout=900, shape='unset or ' + sh + '; errno pre-state symbolic'),
+      dict(name='bool_env_len%d' % L, harness=tag, entry='h_bool_env', unwind=U, tier=tier, timeout=900, shape='unset or ' + sh),
+      dict(name='float_env_len%d' % L, harness=tag, entry='h_float_env', unwind=U, tier=tier, timeout=900, shape='unset or ' + sh + '; strtof nondeterministic'),
     ]
-QUERIES = qs('c18_8', 8, 'quick') + qs('c18_22', 22, 'thorough')
+QUERIES = []
+for L in range(0, 11):
+    HARNESSES['c18_%d' % L] = h(L)
+    QUERIES += qs('c18_%d' % L, L, 'quick' if L in (0, 2, 4) else 'thorough')
 UNITS = [('', 1000000000), ('ns', 1), ('us', 1000), ('ms', 1000000), ('s', 1000000000), ('m', 60000000000), ('h', 3600000000000)]
 for nd in (1, 3, 7, 10, 19):
     for (u, f) in UNITS:
@@ -25,7 +29,7 @@ for nd in (1, 3, 7, 10, 19):
         QUERIES.append(dict(name='timeout_exact_%ddigits_%s' % (nd, u or 'nounit'), harness=tag, entry='h_timeout_exact', unwind=nd + 4, timeout=900,
                             tier='quick' if quick else 'thorough', solvers=['cadical', 'minisat'],
                             shape='%d space(s), %d symbolic digits, unit "%s"' % (nd % 2, nd, u)))
-BOUNDS = ['environment strings <= 8 bytes (quick) / <= 22 bytes (thorough), every byte symbolic']
+BOUNDS = ['environment strings of every length 0..10 (quick: 0, 2, 4), every byte symbolic, one query per length', 'exact duration value: fixed shapes of 1..19 digits x 7 units']
 OUTSIDE = ['Resource::Create/Merge and OTELResourceDetector (istringstream, std::unordered_map): not encoded',
            'strtof value semantics (model returns arbitrary value/end/ERANGE; only the caller logic is checked)',
            'internal log statements compiled out with the SDK option OTEL_INTERNAL_LOG_LEVEL=0']
